@@ -104,6 +104,9 @@ static void do_look(const char* how, int t, int c, int m, int th) {
     else if (!strcmp(how, "meth")) r = token_of(&d, method_at_offset(o, cls, off, "member"));
     else if (!strcmp(how, "tmeth")) r = token_of(&d, type_method_at_offset(type, cls, off, "member"));
     else if (!strcmp(how, "implm")) r = implements_method_at_offset(o, cls, off) ? 1 : 0;
+    /* the subject is the TYPE OBJECT itself (an object of type Type; a static one may never have been looked at before) */
+    else if (!strcmp(how, "simpl")) r = implements(type, cls) ? 1 : 0;
+    else if (!strcmp(how, "sinst")) { struct Decl dT; raw_decl(Type, &dT); r = token_of(&dT, instance(type, cls)); }
     else if (!strcmp(how, "timplm")) r = type_implements_method_at_offset(type, cls, off) ? 1 : 0;
   } catch (e) { exc = exc_name(e); }
   ev_begin("look"); ev_str("how", how); ev_int("t", t); ev_int("c", c); ev_int("m", m); ev_int("r", r); ev_str("exc", exc); ev_int("th", th);
